@@ -44,6 +44,18 @@ func registerCrypto(e *Engine) {
 		t := App("ecrecover", SInt, d, r, s, v)
 		return t
 	}
+	// unforgeable: a signature that was not produced by models.SignDigest (arbitrary
+	// bytes) never recovers to one of the model keys. Signatures made by SignDigest
+	// are recognised by their r component, a fresh variable named sig_r!n.
+	unforgeable := func(fr *frame, d, r, s, v *Term) {
+		if r.op == "var" && strings.HasPrefix(r.name, "sig_r!") {
+			return
+		}
+		rec := recoverT(d, r, s, v)
+		for _, a := range modelAddrs {
+			fr.p.assume(Not(Eq(rec, IntConst(ethAddrInt(a)))))
+		}
+	}
 	addrRange := func(fr *frame, t *Term) *Term {
 		// constrain the UF result to 160 bits via a wrapper variable
 		fr.p.floatVars++
@@ -87,6 +99,7 @@ func registerCrypto(e *Engine) {
 		if !fr.p.branch(fr, valid, nil) {
 			return tuple{(*value)(nil), errValue(fr, "recovery failed")}
 		}
+		unforgeable(fr, d, r, s, v)
 		var cell value = hostPubKey{addr: addrRange(fr, recoverT(d, r, s, v))}
 		return tuple{&cell, nilErr()}
 	})
@@ -111,6 +124,7 @@ func registerCrypto(e *Engine) {
 		if !fr.p.branch(fr, App("validsig", SBool, d, r, s, v), nil) {
 			return tuple{[]value(nil), errValue(fr, "recovery failed")}
 		}
+		unforgeable(fr, d, r, s, v)
 		return tuple{[]value{blobByte{kind: "pubkey", key: addrRange(fr, recoverT(d, r, s, v))}}, nilErr()}
 	})
 	e.reg(cr+"UnmarshalPubkey", func(fr *frame, args []value) value {
@@ -123,3 +137,4 @@ func registerCrypto(e *Engine) {
 	})
 	_ = types.Typ
 }
+
